@@ -100,6 +100,7 @@ def pSigma : P SigmaForm := do
   | "scalar" => return .scalar
   | "negative" => return .negative
   | "vecN" => return .vecN
+  | "vecL" => return .vecL (← pNat)
   | "mat" => return .matN (← pNat)
   | _ => throw s!"sigma? {t}"
 
